@@ -34,11 +34,14 @@ fn gen(prop: &str, tier: &str, seed: u64, out: &str) {
     match prop {
         "C18" => claims::gen_c18(&mut em, &mut rng),
         "C20" => {
-            em.rule = "claim parsers / decoders: enumerated and mutated text, bytes and scalars, outcome class ok|err|panic compared with the model's Outcome; structural part: every delete / rename / retarget / retype / resize mutation of every key, index, reference and variant tag of honest presentations (→ verify), verifier schemas in several statement orders (→ create, verify), blind requests (→ blind_sign_credential), blind bundles (→ to_unblinded), inconsistent credential / known / hidden maps, and random + mutated byte strings for every serde decoder (CBOR, BARE, JSON) — no call may unwind".into();
+            em.rule = "claim parsers / decoders: enumerated and mutated text, bytes and scalars, outcome class ok|err|panic compared with the model's Outcome; structural part: every delete / rename / retarget / retype / resize mutation of every key, index, reference and variant tag of honest presentations (→ verify), verifier schemas in several statement orders (→ create, verify), blind requests (→ blind_sign_credential), blind bundles (→ to_unblinded), inconsistent credential / known / hidden maps, and random + mutated byte strings for every serde decoder (CBOR, BARE, JSON), and the hand-written from_bytes codecs on truncated / extended frames and on out-of-field values in every aligned slot of a valid frame — no call may unwind".into();
             if em.mine(0) {
                 claims::gen_c20_claims(&mut em, &mut rng);
             }
             c20::gen_c20_struct(&mut em, &mut rng);
+            if em.mine(1) {
+                c19::hand_codecs(&mut em, &mut rng.sub(500), "c20");
+            }
         }
         "C14" => vb20::gen_c14(&mut em, &mut rng),
         "C13" => issuer::gen_c13(&mut em, &mut rng),
